@@ -130,127 +130,10 @@ variable (P : Hooks → Prop) (hadd : ∀ it H, P H → P (addItem it H))
   (hrm : ∀ it H H', P H → removeItem it H = .ok H' → P H')
 include hadd hrm
 
-theorem applyOwn_pres (rm : Bool) (its : List Item) (H : Hooks) (done : List Item) (hP : P H) :
-    P (applyOwn rm its H done).1 := by
-  induction its generalizing H done with
-  | nil => exact hP
-  | cons it its ih =>
-    cases rm with
-    | true =>
-      simp only [applyOwn, if_true]
-      cases hr : removeItem it H with
-      | error e => exact hP
-      | ok H' => exact ih H' _ (hrm it H H' hP hr)
-    | false =>
-      simp only [applyOwn, Bool.false_eq_true, if_false]
-      exact ih _ _ (hadd it H hP)
-
-theorem undo_pres (rm : Bool) (done : List Item) (H : Hooks) (hP : P H) : P (undo rm done H) := by
-  induction done generalizing H with
-  | nil => exact hP
-  | cons it done ih =>
-    simp only [undo]
-    apply ih
-    cases rm with
-    | true => simp only [if_true]; exact hadd it H hP
-    | false =>
-      simp only [Bool.false_eq_true, if_false]
-      cases hr : removeItem it H with
-      | error e => exact hP
-      | ok H' => exact hrm it H H' hP hr
-
-theorem notifStep_pres (h : Heap) (k : HKey) (rm : Bool) (ob : Observer) (x : W) (H : Hooks) (done : List Item)
-    (hP : P H) : P (notifStep h k rm ob x H done).1 := by
-  unfold notifStep
-  split
-  · split
-    · exact hP
-    · exact applyOwn_pres P hadd hrm rm _ H done hP
-  · exact hP
-
-theorem maintStep_pres (h : Heap) (k : HKey) (rm : Bool) (ob : Observer) (cs : List Graph) (x : W) (H : Hooks)
-    (done : List Item) (hP : P H) : P (maintStep h k rm ob cs x H done).1 := by
-  unfold maintStep
-  split
-  · exact hP
-  · exact applyOwn_pres P hadd hrm rm _ H done hP
-
-theorem extraStep_pres (h : Heap) (k : HKey) (rm : Bool) (g : Graph) (x : W) (H : Hooks) (hP : P H) :
-    P (extraStep h k rm g x H).H := by
-  unfold extraStep
-  split
-  · exact hP
-  · rename_i os _
-    have a := applyOwn_pres P hadd hrm rm (List.map (fun o => (o, NKey.maint .added g k)) os) H [] hP
-    simp only []
-    split
-    · exact undo_pres P hadd hrm rm _ _ a
-    · exact a
-
-theorem addRemove_pres (h : Heap) (k : HKey) :
-    ∀ g : Graph, ∀ (rm extra : Bool) (x : W) (H : Hooks), P H → P (addRemove h k rm extra g x H).H := by
-  apply Graph.ind (P := fun g => ∀ (rm extra : Bool) (x : W) (H : Hooks), P H → P (addRemove h k rm extra g x H).H)
-  intro ob cs ih rm extra x H hP
-  have hCs : ∀ (rm : Bool) (cs' : List Graph), (∀ c ∈ cs', c ∈ cs) → ∀ H, P H → P (addRemoveCs h k rm ob x cs' H).H := by
-    intro rm cs'
-    induction cs' with
-    | nil => intro _ H hP; exact hP
-    | cons c cs' ihc =>
-      intro hsub H hP
-      simp only [addRemoveCs]
-      split
-      · exact hP
-      · rename_i ys _
-        have h1 : P (foldRes (addRemove h k rm true c) ys H).H :=
-          foldRes_pres P _ (fun y H' hP' => ih c (hsub c (List.mem_cons_self ..)) rm true y H' hP') ys H hP
-        split
-        · exact h1
-        · exact ihc (fun c' hc' => hsub c' (List.mem_cons_of_mem _ hc')) _ h1
-  cases rm with
-  | true =>
-    rw [addRemove_rm_unfold]
-    have r1 : P (if extra then extraStep h k true (.node ob cs) x H else ⟨H, none⟩ : Res).H := by
-      split
-      · exact extraStep_pres P hadd hrm h k true _ x H hP
-      · exact hP
-    simp only []
-    split
-    · exact r1
-    · have r2 := hCs true cs (fun c hc => hc) _ r1
-      split
-      · exact r2
-      · have a3 := maintStep_pres P hadd hrm h k true ob cs x _ [] r2
-        split
-        · exact undo_pres P hadd hrm true _ _ a3
-        · have a4 := notifStep_pres P hadd hrm h k true ob x _
-            (maintStep h k true ob cs x (addRemoveCs h k true ob x cs
-              (if extra then extraStep h k true (.node ob cs) x H else ⟨H, none⟩ : Res).H).H []).2.1 a3
-          split
-          · exact undo_pres P hadd hrm true _ _ a4
-          · exact a4
-  | false =>
-    rw [addRemove_add_unfold]
-    have a1 := notifStep_pres P hadd hrm h k false ob x H [] hP
-    simp only []
-    split
-    · exact undo_pres P hadd hrm false _ _ a1
-    · have a2 := maintStep_pres P hadd hrm h k false ob cs x _ (notifStep h k false ob x H []).2.1 a1
-      split
-      · exact undo_pres P hadd hrm false _ _ a2
-      · have r3 := hCs false cs (fun c hc => hc) _ a2
-        split
-        · exact undo_pres P hadd hrm false _ _ r3
-        · have r4 : P (if extra then extraStep h k false (.node ob cs) x
-              (addRemoveCs h k false ob x cs (maintStep h k false ob cs x (notifStep h k false ob x H []).1
-                (notifStep h k false ob x H []).2.1).1).H else
-              ⟨(addRemoveCs h k false ob x cs (maintStep h k false ob cs x (notifStep h k false ob x H []).1
-                (notifStep h k false ob x H []).2.1).1).H, none⟩ : Res).H := by
-            split
-            · exact extraStep_pres P hadd hrm h k false _ x _ r3
-            · exact r3
-          split
-          · exact undo_pres P hadd hrm false _ _ r4
-          · exact r4
+theorem addRemove_pres (h : Heap) (k : HKey) (g : Graph) (rm extra : Bool) (x : W) (H : Hooks) (hP : P H) :
+    P (addRemove h k rm extra g x H).H :=
+  addRemove_touch P (fun _ => True) (fun it H _ hP => hadd it H hP) (fun it H H' _ hP hr => hrm it H H' hP hr)
+    h k g rm extra x H (fun _ _ => trivial) hP
 
 theorem maintTrait_pres (h : Heap) (mk : MKind) (g : Graph) (k : HKey) (o : Id) (old new : Val) (H : Hooks)
     (hP : P H) : P (maintTrait h mk g k o old new H).H := by
